@@ -20,6 +20,7 @@ import (
 	"sort"
 	"strconv"
 	"strings"
+	"sync/atomic"
 	"time"
 
 	"github.com/twitchtv/twirp"
@@ -401,13 +402,18 @@ func main() {
 		}
 		node.FailPut = map[string]error{}
 		var outs, kinds []string
+		oks := 0
 		for _, q := range reqs {
 			outs = append(outs, strconv.Itoa(q.tid)+":"+q.code+":"+q.pubd)
-			kinds = append(kinds, q.op+"="+q.code)
+			kinds = append(kinds, q.op)
+			if q.code == "ok" {
+				oks++
+			}
+			r.Count("conc-result:" + q.op + "/" + q.code)
 		}
 		r.Emit("cend", hlib.Join(outs, ";")+" "+digest())
 		r.Case(key)
-		r.Count("conc:" + label + "/" + hlib.Join(kinds, "+"))
+		r.Count("conc:" + label + "/" + hlib.Join(kinds, "+") + "/ok=" + strconv.Itoa(oks))
 		return steps0
 	}
 
